@@ -23,6 +23,8 @@
 (***************************************************************************)
 EXTENDS Integers, Sequences, FiniteSets, TLC, Json
 
+CONSTANT Stratum    \* "all": every data history; "never": only scenarios whose metric never had a sample (P2 stratum)
+
 Cells == -3..15
 InWin == -1..15              \* cells that reach into the lookback window
 NowCell == 15                \* the cell containing now
@@ -43,14 +45,19 @@ UpNames == {"always", "gap", "none"}
 UpHist(u) == CASE u = "always" -> Cells [] u = "gap" -> Cells \ {4, 5} [] u = "none" -> {}
 
 Shapes == {"bare", "eq", "nm", "re", "neq", "nolabel", "alerts"}    \* nm: {__name__="m", l="v1"}
-RuleSets == {"none", "rr_same", "rr_other", "alert_same", "alert_other"}
+RuleSets == {"none", "rr_same", "rr_other", "alert_same", "alert_other", "alert_named"}
+            \* alert_named: an ALERTING rule whose name equals the metric name - it produces ALERTS series, not the metric
 Exempts == {"none", "disable", "disable_other", "snooze", "snooze_expired", "ignore", "ignore_other", "minage1h", "minage3h"}
 
 \* how the selector is used in the rule expression: `sel > 0`, `sum(sel) > 0`, `rate(sel[5m]) > 0`,
 \* `sel * zf > 0`, `zf * sel > 0` where zf is a second metric that never existed (so the rule has two
 \* selectors and the other one always earns a Bug of its own). The check extracts the selectors
 \* (getNonFallbackSelectors) in source order.
-Wraps == {"cmp", "sum", "rate", "mul_first", "mul_second"}
+\* `m{z="1"} * sel > 0` with `# pint disable promql/series(m{z="1"})`: another selector of the SAME metric is
+\* switched off by a selector-scoped comment, which must not silence the selector under test.
+\* `sum(sel) / (sum(zf) or vector(1)) > 0`: the OTHER operand has a vector() fallback (documented: that operand is
+\* not checked), the selector under test has none and must still be checked.
+Wraps == {"cmp", "sum", "rate", "mul_first", "mul_second", "same_second", "div_fallback"}
 
 Scenario == [shape : Shapes, ha : HistNames, hb : HistNames, up : UpNames, rules : RuleSets, exempt : Exempts, wrap : Wraps]
 
@@ -215,7 +222,9 @@ vars == <<sc, pc, out>>
 Init == /\ sc \in [shape : Shapes, ha : {"never"}, hb : {"never"}, up : {"always"}, rules : {"none"}, exempt : {"none"}, wrap : Wraps]
         /\ pc = "data" /\ out = [probes |-> << >>, problems |-> {}]
 ChooseData ==  /\ pc = "data"
-               /\ \E a \in HistNames, b \in HistNames, u \in UpNames : sc' = [sc EXCEPT !.ha = a, !.hb = b, !.up = u]
+               /\ \E a \in (IF Stratum = "never" THEN {"never"} ELSE HistNames),
+                     b \in (IF Stratum = "never" THEN {"never"} ELSE HistNames), u \in UpNames :
+                       sc' = [sc EXCEPT !.ha = a, !.hb = b, !.up = u]
                /\ pc' = "rules" /\ UNCHANGED out
 ChooseRules == /\ pc = "rules"
                /\ \E r \in RuleSets, e \in Exempts : sc' = [sc EXCEPT !.rules = r, !.exempt = e]
